@@ -88,7 +88,13 @@ func (s *sessionManager) write(activeMsg *ActiveMessage) *Message {
 			activeMsg.header = v.header
 			activeMsg.replyChan = replyChan
 			verifAt(nil, "M.route.before", key)
-			v.activeMsgChan <- activeMsg
+			select {
+			case v.activeMsgChan <- activeMsg:
+			default:
+				// 该终端排队的下发请求已满(终端不读数据等情况) 不能阻塞会话管理协程 否则所有终端的加入 离开 下发都会卡住
+				replyChan <- newErrMessage(errors.Join(ErrWriteDataFail,
+					fmt.Errorf("key=[%s] too many pending active messages", key)))
+			}
 			verifAt(nil, "M.route.after", key)
 			return
 		}
